@@ -424,5 +424,21 @@ pub fn write_doc(v: &V, style: Style, u: &mut Choices, layout: bool) -> Written 
     if !layout || w.block_scalars > 0 || w.u.chance(3, 4) {
         w.put("\n");
     }
+    // a block document may be indented as a whole (every line by the same amount)
+    if layout && style == Style::YamlBlock && matches!(v, V::Map(m) if !m.is_empty()) && !w.out.contains("---\n") && w.u.chance(1, 6) {
+        let k = 1 + w.u.below(3);
+        let pad = " ".repeat(k);
+        let mut t = String::new();
+        for line in w.out.split_inclusive('\n') {
+            if line != "\n" {
+                t.push_str(&pad);
+            }
+            t.push_str(line);
+        }
+        w.out = t;
+        for (_, p) in w.pos.iter_mut() {
+            p.1 += k;
+        }
+    }
     Written { text: w.out, pos: w.pos, plain_strings: w.plain, quoted_strings: w.quoted, block_scalars: w.block_scalars }
 }
